@@ -121,7 +121,8 @@ func classChar(s string) (rune, int, error) {
 	return r, k + n, nil
 }
 
-// Match reports whether the whole of s matches pattern p.
+// Match reports whether the whole of s matches pattern p ('*' may stop at any
+// byte offset).
 func Match(p, s string) (bool, error) {
 	toks, err := Parse(p)
 	if err != nil {
@@ -130,8 +131,46 @@ func Match(p, s string) (bool, error) {
 	return MatchToks(toks, s), nil
 }
 
-// MatchToks matches a parsed pattern (memoised backtracking).
-func MatchToks(toks []Tok, s string) bool {
+// Match3 gives the verdict under both readings of '*': stopping at any byte
+// offset, or only after whole characters. The two readings differ only when a
+// '*' could end in the middle of a multi-byte character, which the documented
+// syntax does not decide; must = both say yes, may = at least one says yes.
+func Match3(p, s string) (must, may bool, err error) {
+	toks, err := Parse(p)
+	if err != nil {
+		return false, false, err
+	}
+	a := matchToks(toks, s, false)
+	b := a
+	if hasStar(toks) && !isASCII(s) {
+		b = matchToks(toks, s, true)
+	}
+	return a && b, a || b, nil
+}
+
+func hasStar(toks []Tok) bool {
+	for _, t := range toks {
+		if t.Kind == TStar {
+			return true
+		}
+	}
+	return false
+}
+
+func isASCII(s string) bool {
+	for i := 0; i < len(s); i++ {
+		if s[i] >= 0x80 {
+			return false
+		}
+	}
+	return true
+}
+
+// MatchToks matches a parsed pattern (memoised backtracking, '*' may stop at
+// any byte offset).
+func MatchToks(toks []Tok, s string) bool { return matchToks(toks, s, false) }
+
+func matchToks(toks []Tok, s string, wholeChars bool) bool {
 	// dead[i][j]: tokens i.. cannot match s[j:]
 	dead := make(map[[2]int]bool)
 	var rec func(i, j int) bool
@@ -147,8 +186,17 @@ func MatchToks(toks []Tok, s string) bool {
 		ok := false
 		switch t.Kind {
 		case TStar:
-			for k := j; k <= len(s) && !ok; k++ {
+			for k := j; k <= len(s) && !ok; {
 				ok = rec(i+1, k)
+				if k == len(s) {
+					break
+				}
+				if wholeChars {
+					_, n := utf8.DecodeRuneInString(s[k:])
+					k += n
+				} else {
+					k++
+				}
 			}
 		case TLit, TEsc:
 			ok = j < len(s) && s[j] == t.B && rec(i+1, j+1)
